@@ -81,6 +81,8 @@ def _probe(items):
 
 KIND_CODES = {"dict": 0, "OrderedDict": 1, "list": 2, "set": 3, "Scope": 4, "tuple": 5, "object": 6}
 OPCODES = {"reset": 0, "w": 1, "ra": 3, "rk": 4}
+UNDISCIPLINED = []
+LEAK_PAIRS = []  # (A, B) probe pairs on which some registry was classified a leak: handed to the byte-comparison oracle
 TRACES = []      # filled by classify_pair: (label, events of one run)
 KINDS = {}
 
@@ -136,12 +138,36 @@ def registry_classes(extra_pairs=()):
     with ThreadPoolExecutor(8) as ex:
         results = list(ex.map(lambda ab: classify_pair(*ab), pairs))
     worst, why = {}, {}
+    del LEAK_PAIRS[:]
+    del UNDISCIPLINED[:]
     for (a, b), res in zip(pairs, results):
+        if any(c == 9 for k, (c, w) in res.items() if k != "<traces>"):
+            LEAK_PAIRS.append([a, b])
         TRACES.extend(res.pop("<traces>"))      # in the order of `pairs`, not of thread completion
         for rid, (c, w) in res.items():
             if c > worst.get(rid, -1):
                 worst[rid] = c
                 why[rid] = "%s after %s: %s" % (b, a, w) if w else ""
+    # oracle guidance only (the check itself is the Lean theorem real_runs_disciplined over the regenerated traces): a pair
+    # whose later run reads a registry, or a key, that it has not determined itself is handed to the byte comparison
+    immut = {r for r, c in worst.items() if c == 0}
+    for i, (label, evs, exc) in enumerate(TRACES):
+        s_, sk_, bad = set(immut), set(), None
+        for kind, rid, key in evs:
+            if kind == "reset":
+                if worst.get(rid) != 0:
+                    s_.add(rid)
+            elif kind == "w":
+                sk_.add((rid, key))
+            elif kind == "ra" and rid not in s_:
+                bad = (kind, rid, key)
+            elif kind == "rk" and rid not in s_ and (rid, key) not in sk_:
+                bad = (kind, rid, key)
+            if bad:
+                break
+        if bad and list(pairs[i // 2]) not in LEAK_PAIRS:
+            LEAK_PAIRS.append(list(pairs[i // 2]))
+            UNDISCIPLINED.append("%s: %s %s %s" % (label, bad[0], bad[1], bad[2]))
     return worst, why
 
 
@@ -340,7 +366,7 @@ def regenerate(extra_pairs=()):
             "kinds": {k: sum(1 for r in classes if KINDS.get(r) == k) for k in KIND_CODES},
             "classes": {r: c for r, c in classes.items() if c != 0},
             "leaks": {r: why[r] for r, c in classes.items() if c == 9},
-            "ambient": amb, "changed": changed}
+            "leak_pairs": list(LEAK_PAIRS), "undisciplined": list(UNDISCIPLINED), "ambient": amb, "changed": changed}
 
 
 if __name__ == "__main__":
